@@ -147,6 +147,8 @@ def binder_extra_worker(inst):
     _, kind, how, name = inst
     if kind == "integrate":
         return _integrate_worker(inst)
+    if kind == "cat_clash":
+        return _cat_clash_worker(inst)
 
     def ob(mk):
         from collections import OrderedDict
@@ -177,6 +179,38 @@ def binder_extra_worker(inst):
         pairs.append((got, exp))
         return pairs
     out = decide("binder|%s|%s|%s" % (kind, how, name), ob, timeout_ms=8000, twin=False)
+    out["prog"] = out["label"]
+    out["kind"] = out.get("kind") or "binder"
+    return out
+
+
+def _cat_clash_worker(inst):
+    """Cat(name, parts, part_name) binds part_name and introduces name: a part that already has an input called `name`
+    makes the term ill-formed (Cat.__init__ asserts it).  The eager rules run instead of __init__, so they must reject
+    it as well - for every number of parts - or else return the well-scoped value (never a silent diagonal)."""
+    from harness.oblig import decide
+    _, kind, how, nparts = inst
+
+    def ob(mk):
+        from collections import OrderedDict
+        import z3
+        from funsor import Bint, Tensor
+        from funsor.interpretations import lazy
+        from funsor.terms import Cat
+        X = mk.array("x", (3, 3), "real")
+        x = Tensor(X, OrderedDict(i=Bint[3], j=Bint[3]))
+        rejected = False
+        try:
+            if how == "eager":
+                r = Cat("j", (x,) * nparts, "i")
+            else:
+                with lazy:
+                    r = Cat("j", (x,) * nparts, "i")
+        except AssertionError:
+            rejected = True
+        ok = rejected or (set(r.inputs) == {"j"} and r.inputs["j"].size == 3 * nparts and False)
+        return [(z3.BoolVal(ok) if mk.symbolic else ok, None)]
+    out = decide("binder|cat_clash|%s|%d parts" % (how, nparts), ob, timeout_ms=8000, twin=False)
     out["prog"] = out["label"]
     out["kind"] = out.get("kind") or "binder"
     return out
@@ -303,6 +337,7 @@ def main():
     insts = instances(chk.tier, chk.seed)
     chk.map("checks.c05", "worker", insts, chunksize=8)
     chk.map("checks.c05", "binder_extra_worker", [("binder", "approximate", how, nm) for how in ("reflect", "lazy") for nm in ("a", "x")], chunksize=1, family="approximate")
+    chk.map("checks.c05", "binder_extra_worker", [("binder", "cat_clash", how, n) for how in ("eager", "lazy") for n in (1, 2, 3)], chunksize=1, family="cat_clash")
     chk.map("checks.c05", "binder_extra_worker", [("binder", "integrate", how, nm) for how in ("eager", "reflect", "lazy") for nm in (("a", "b", "c"), ("c", "a", "b"), ("b", "c", "a"))],
             chunksize=1, family="integrate")
     # the time binder of a lazily built MarkovProduct (not in the Prog language): obligation harness of C10
